@@ -269,6 +269,10 @@ def check(ctx):
                     "the signing digest = get_digest(digest option, generated key)", [FAE, "digest"])
     for c_ in fae.calls_to(GEN):
         ctx.require(R5, arg_origins(c_, 0).has_leaf("param:1") and arg_origins(c_, 3).has_leaf("param:2"), c_.where(), "gen_certificate(domain, key, digest, acme_ext) receives from_acme_ext's own arguments", [FAE, "forward"])
+    # "a TLS client offering acme-tls/1 receives the certificate" needs the server to answer EVERY connection: the accept-loop /
+    # connection-thread rules of C17 (no panic, no exit, no connection dropped by a quota, no blocking in the accept loop)
+    from . import c17 as _c17
+    ctx.shared("C17", _c17.check)
 
 
 # openssl crate (documented): mozilla_intermediate / mozilla_intermediate_v5 accept TLS 1.2 and 1.3; mozilla_modern (v4) accepts
